@@ -34,6 +34,8 @@ func c04Pool() [][]byte {
 		appMsg(3, "110=100", "210=abc", "58=10=000"),               // tags ending in 10 with three-byte values; a value that starts with 10=
 		rawFrom("PEER", "SELF", "8", 4, "58="+strings.Repeat("L", 260)), // longer than one bufio fill when cut
 		appMsg(5, "58=\x0210=", "1010=10="),
+		// a field longer than bufio's 4096-byte buffer whose text carries "10=" exactly 4096 and 8192 bytes after the field start
+		appMsg(6, "58="+strings.Repeat("x", 4093)+"10=abc"+strings.Repeat("y", 4090)+"10=", "11=after"),
 	}
 }
 
@@ -46,6 +48,8 @@ type c04Obs struct {
 	written   [][]byte
 	handoff   []string
 	notes     string
+	stream    []byte
+	handed    []byte
 }
 
 type c04Case struct {
@@ -94,16 +98,16 @@ func chunksOf(stream []byte, msgs [][]byte, cuts []int) [][]byte {
 // c04Body runs one inbound scenario and fills obs.
 func c04Inbound(c c04Case, obs *c04Obs) {
 	*obs = c04Obs{seen: map[int][][]byte{}}
-	inCB := 0
+	inCB := map[int]int{} // per connection: callbacks of one connection must never overlap (two connections may)
 	record := func(idx int) simplefixgo.IncomingHandlerFunc {
 		return func(m []byte) bool {
-			inCB++
-			if inCB > 1 {
+			inCB[idx]++
+			if inCB[idx] > 1 {
 				obs.overlap = true
 			}
 			obs.seen[idx] = append(obs.seen[idx], append([]byte{}, m...))
 			vsched.Preempt() // an arbitrary delay inside the callback: a second callback could start here if it were possible
-			inCB--
+			inCB[idx]--
 			return true
 		}
 	}
@@ -286,6 +290,67 @@ func c04Outbound(c c04Case, obs *c04Obs) {
 	}
 }
 
+// c04OutboundPartial: four messages are handed over one after the other; the Cuts[0]-th Write accepts
+// only Cuts[1] bytes and then reports a timeout (a stalled peer and a short write deadline).
+func c04OutboundPartial(c c04Case, obs *c04Obs) {
+	*obs = c04Obs{seen: map[int][][]byte{}}
+	cn := newConn(0)
+	cn.partialAt, cn.partialN = c.Cuts[0], c.Cuts[1]
+	var sendRaw func(b []byte) error
+	if c.Role == "ini" {
+		h := simplefixgo.NewInitiatorHandler(context.Background(), "35", c.Buf)
+		cl := simplefixgo.NewInitiator(cn, h, c.Buf, 5*time.Second)
+		go func() { obs.serveErr = cl.Serve(); obs.served = true }()
+		sendRaw = h.SendRaw
+	} else {
+		l := &slistener{}
+		a := simplefixgo.NewAcceptor(l, simplefixgo.NewAcceptorHandlerFactory("35", c.Buf), 5*time.Second, func(h simplefixgo.AcceptorHandler) {
+			sendRaw = h.SendRaw
+		})
+		go func() { obs.serveErr = a.ListenAndServe(); obs.served = true }()
+		l.q = append(l.q, cn)
+	}
+	vsched.Settle()
+	for i := 0; i < 4; i++ {
+		m := rawFrom("SELF", "PEER", "D", i+1, fmt.Sprintf("11=m%d", i), "58=payload-of-some-length")
+		obs.handed = append(obs.handed, m...)
+		done := false
+		go func() { _ = sendRaw(m); done = true }()
+		time.Sleep(time.Second)
+		vsched.Settle()
+		_ = done
+	}
+	time.Sleep(20 * time.Second)
+	vsched.Settle()
+	obs.stream = cn.stream()
+}
+
+func c04CheckPartial(c c04Case, obs *c04Obs) (string, string) {
+	// whatever reached the wire is a prefix of the hand-off order (the connection may die after the fault,
+	// but it never repeats, skips or reorders bytes)
+	if !bytes.HasPrefix(obs.handed, obs.stream) {
+		n := 0
+		for n < len(obs.stream) && n < len(obs.handed) && obs.stream[n] == obs.handed[n] {
+			n++
+		}
+		return "outbound-stream-not-a-prefix-of-handoff", fmt.Sprintf("%d bytes on the wire, %d handed off, first difference at %d: wire ...%q", len(obs.stream), len(obs.handed), n, show(obs.stream[max0(n-20):min2(len(obs.stream), n+40)]))
+	}
+	return "", ""
+}
+
+func max0(a int) int {
+	if a < 0 {
+		return 0
+	}
+	return a
+}
+func min2(a, b int) int {
+	if a < b {
+		return a
+	}
+	return b
+}
+
 func c04CheckOutbound(c c04Case, obs *c04Obs) (string, string) {
 	if obs.notes != "" {
 		return "outbound-torn", obs.notes
@@ -340,19 +405,28 @@ func c04ScenarioOf(c c04Case, delay bool, bound int) *schedScenario {
 	p := map[string]any{"role": c.Role, "buf": c.Buf, "seq": c.Seq, "seq2": c.Seq2, "cuts": c.Cuts, "mode": c.Mode}
 	sc := &schedScenario{Name: "c04", Params: p, Strict: true, Delay: delay, Bound: bound, MaxSteps: 400000}
 	sc.Body = func() {
-		if c.Mode == "outbound" {
+		switch c.Mode {
+		case "outbound":
 			c04Outbound(c, &obs)
-		} else {
+		case "outbound-partial":
+			c04OutboundPartial(c, &obs)
+		default:
 			c04Inbound(c, &obs)
 		}
 	}
 	sc.Check = func(r *vsched.Result) (string, string) {
-		if c.Mode == "outbound" {
+		switch c.Mode {
+		case "outbound":
 			return c04CheckOutbound(c, &obs)
+		case "outbound-partial":
+			return c04CheckPartial(c, &obs)
 		}
 		return c04CheckInbound(c, &obs)
 	}
 	sc.Outcome = func() string {
+		if c.Mode == "outbound-partial" {
+			return fmt.Sprintf("wire-bytes:%d", len(obs.stream))
+		}
 		if c.Mode == "outbound" {
 			var ids []string
 			for _, m := range obs.written {
@@ -429,7 +503,7 @@ func runC04(R *vlib.Out) {
 		seqsFull = append(seqsFull, []int{4, 1, 2}, []int{3, 0})
 	}
 	var seqsAll [][]int
-	np := len(c04Pool())
+	np := len(c04Pool()) - 1 // the 8 KiB message takes part in dedicated sequences only
 	for a := 0; a < np; a++ {
 		seqsAll = append(seqsAll, []int{a})
 		for b := 0; b < np; b++ {
@@ -444,6 +518,31 @@ func runC04(R *vlib.Out) {
 		}
 	}
 	for _, role := range []string{"ini", "acc"} {
+		// the long message: alone, before and after a short one; whole, per message, byte by byte, cut around the 4096 boundaries
+		for _, seq := range [][]int{{5}, {5, 0}, {1, 5}} {
+			s, _ := streamOf(seq)
+			cutsets := [][]int{nil, {-2}, {-1}}
+			for _, b := range []int{4096, 8192} {
+				for d := -2; d <= 2; d++ {
+					if b+d < len(s) {
+						cutsets = append(cutsets, []int{b + d}, []int{100, b + d})
+					}
+				}
+			}
+			for _, cuts := range cutsets {
+				if !runDefault(c04Case{Role: role, Buf: 1, Seq: seq, Cuts: cuts, Mode: "inbound"}) {
+					goto done
+				}
+			}
+		}
+		// outbound with a write that accepts part of a message and then times out
+		for _, at := range []int{1, 2, 3} {
+			for _, n := range []int{1, 25, 60} {
+				if !runDefault(c04Case{Role: role, Buf: 1, Mode: "outbound-partial", Cuts: []int{at, n}}) {
+					goto done
+				}
+			}
+		}
 		for _, buf := range []int{0, 1, 10} {
 			for _, seq := range seqsAll {
 				s, _ := streamOf(seq)
@@ -516,4 +615,102 @@ func runC04(R *vlib.Out) {
 	}
 done:
 	finishSched(R)
+}
+
+// ---- C18, connection part: end-of-message detection recognises the CheckSum tag only at a field
+// boundary.  Messages whose values contain / end with "10=", whose tags end in 10, or that carry a
+// field longer than the reader's buffer are delivered through the real Conn on the scripted socket
+// in several read partitions; the delivered boundaries must be the sent boundaries.
+
+func c18Pool() [][]byte {
+	var out [][]byte
+	seq := 1
+	add := func(fields ...string) {
+		out = append(out, appMsg(seq, fields...))
+		seq++
+	}
+	for _, v := range []string{"10=", "10=abc", "x10=abc", "see 10=abc", "10=000", "=10=", "\x0210=123", "110=abc", "1\x0210=1"} {
+		add("58=" + v)
+		add("58="+v, "59=tail")
+	}
+	for _, tg := range []string{"110", "210", "1010", "100", "101"} {
+		add(tg + "=abc")
+		add(tg+"=100", "58=x")
+		add(tg + "=10=")
+	}
+	add("58="+strings.Repeat("x", 4093)+"10=abc", "11=after")
+	return out
+}
+
+func runC18conn(R *vlib.Out) {
+	pool := c18Pool()
+	unit := 0
+	for _, role := range []string{"ini", "acc"} {
+		for pi := range pool {
+			for qi := range pool {
+				if qi != (pi+1)%len(pool) && qi != (pi+7)%len(pool) {
+					continue
+				}
+				stream := append(append([]byte{}, pool[pi]...), pool[qi]...)
+				cutsets := [][]int{nil, {-1}, {-2}, {len(pool[pi]) - 5}, {len(pool[pi]) - 3, len(pool[pi]) + 9}}
+				for _, cuts := range cutsets {
+					unit++
+					if !vlib.Mine(unit) {
+						continue
+					}
+					if vlib.Expired() {
+						R.Cap("deadline")
+						return
+					}
+					R.Eval()
+					var seen [][]byte
+					served := false
+					r := vsched.Run(vsched.Options{StrictTime: true, MaxSteps: 400000}, func() {
+						cn := newConn(0)
+						rec := func(m []byte) bool { seen = append(seen, append([]byte{}, m...)); return true }
+						if role == "ini" {
+							h := simplefixgo.NewInitiatorHandler(context.Background(), "35", 1)
+							h.HandleIncoming(simplefixgo.AllMsgTypes, rec)
+							cl := simplefixgo.NewInitiator(cn, h, 1, 5*time.Second)
+							go func() { _ = cl.Serve(); served = true }()
+						} else {
+							l := &slistener{}
+							a := simplefixgo.NewAcceptor(l, simplefixgo.NewAcceptorHandlerFactory("35", 1), 5*time.Second, func(h simplefixgo.AcceptorHandler) {
+								h.HandleIncoming(simplefixgo.AllMsgTypes, rec)
+							})
+							go func() { _ = a.ListenAndServe(); served = true }()
+							l.q = append(l.q, cn)
+						}
+						vsched.Settle()
+						cn.feed(chunksOf(stream, [][]byte{pool[pi], pool[qi]}, cuts)...)
+						vsched.Settle()
+						cn.eof = true
+						time.Sleep(5 * time.Second)
+						vsched.Settle()
+					})
+					_ = served
+					R.Transitions += int64(r.Steps)
+					key := fmt.Sprintf("conn/%s/%d/%d/%v", role, pi, qi, cuts)
+					R.ClassU(key)
+					R.State(key)
+					if r.Panic != "" {
+						R.Violate("conn:panic-in-task:"+r.PanicTask, r.Panic, map[string]any{"role": role, "p": pi, "q": qi, "cuts": cuts})
+						continue
+					}
+					ok := len(seen) == 2 && bytes.Equal(seen[0], pool[pi]) && bytes.Equal(seen[1], pool[qi])
+					if !ok {
+						var got []string
+						for _, m := range seen {
+							got = append(got, show(m))
+						}
+						R.Violate("conn:message-boundary-moved", fmt.Sprintf("%s: sent %q and %q, delivered %d: %q", key, show(pool[pi]), show(pool[qi]), len(seen), got),
+							map[string]any{"role": role, "p": pi, "q": qi, "cuts": cuts})
+					} else {
+						R.Outcome("conn: boundaries kept")
+						R.Sample(3, map[string]any{"role": role, "first": show(pool[pi]), "cuts": cuts})
+					}
+				}
+			}
+		}
+	}
 }
